@@ -66,7 +66,7 @@ func main() {
 		maxSteps = flag.Int("maxsteps", 2000000, "instruction cap per path")
 		unwind   = flag.Int("unwind", 64, "loop unwinding bound per frame")
 		feasTO   = flag.Int("feas-timeout", 10000, "feasibility query timeout ms")
-		oblTO    = flag.Int("obl-timeout", 60000, "obligation query timeout ms")
+		oblTO    = flag.Int("obl-timeout", 150000, "obligation query timeout ms")
 		concrCap = flag.Int("concr-cap", 70, "maximum values when concretising one term")
 		wall     = flag.Int("wall", 600, "wall time cap per harness, s")
 		verbose  = flag.Int("v", 0, "verbosity")
